@@ -66,6 +66,19 @@ def catalogue():
     add("polynomial(dict)", lambda x, y: numpoly.polynomial(x.todict(), names=x.names))
     add("polynomial({(0,1):1})", lambda x, y: numpoly.polynomial({(0, 1): 1, (2, 0): -2}))
     add("polynomial({(0,1,0):[1,2]})", lambda x, y: numpoly.polynomial({(0, 1, 0): [1, 2]}))
+    # names handed over as ONE string (a prefix that is numbered, or a complete name), as a list, as indeterminants
+    add("polynomial(dict1, names='q')", lambda x, y: numpoly.polynomial({(1,): 2, (0,): 1}, names="q"))
+    add("polynomial(dict1, names='q4')", lambda x, y: numpoly.polynomial({(2,): 2, (0,): 1}, names="q4"))
+    add("polynomial(dict2, names='q')", lambda x, y: numpoly.polynomial({(0, 1): 1, (2, 0): -2}, names="q"))
+    add("polynomial(dict3, names='q')", lambda x, y: numpoly.polynomial({(0, 1, 0): [1, 2], (1, 0, 2): [0, 3]}, names="q"))
+    add("polynomial(dict2, names=list)", lambda x, y: numpoly.polynomial({(0, 1): 1, (2, 0): -2}, names=["q3", "q7"]))
+    add("from_attributes(names='q')", lambda x, y: numpoly.polynomial_from_attributes([(0, 1), (2, 0)], [1, 2], "q"))
+    add("from_attributes 1 name 'q'", lambda x, y: numpoly.polynomial_from_attributes([(1,), (3,)], [1, 2], "q"))
+    add("ndpoly.from_attributes(names='q')", lambda x, y: numpoly.ndpoly.from_attributes([(0, 1), (2, 0)], [1, 2], "q"))
+    add("aspolynomial(x, names=x.names)", lambda x, y: numpoly.aspolynomial(x, names=x.names))
+    add("polynomial(x, names=x.indeterminants)", lambda x, y: numpoly.polynomial(x, names=x.indeterminants))
+    add("symbols('q:3')", lambda x, y: numpoly.symbols("q:3")), add("symbols('q')", lambda x, y: numpoly.symbols("q"))
+    add("variable(1)", lambda x, y: numpoly.variable(1)), add("monomial(3, dimensions='q')", lambda x, y: numpoly.monomial(3, dimensions="q"))
     add("from_attributes(names=None)", lambda x, y: numpoly.polynomial_from_attributes([(0, 1), (0, 2)], [1, 2]))
     add("from_attributes", lambda x, y: numpoly.polynomial_from_attributes(x.exponents, x.coefficients, x.names))
     add("polynomial(values)", lambda x, y: numpoly.polynomial(x.values, names=x.names))
